@@ -30,7 +30,7 @@ REG = Registry(
 )
 
 OPS = ["set_weights", "set_means", "set_variances", "set_floors", "em_step", "deepcopy", "pickle", "hdf5_new",
-       "hdf5_load_other", "set_floors", "set_variances", "set_weights", "lower_floors_and_shrink"]
+       "hdf5_load_other", "set_floors", "set_variances", "set_weights", "lower_floors_and_shrink", "lend_to_other_machine"]
 
 
 def g_history(draw):
@@ -72,6 +72,9 @@ def g_history(draw):
             op["var"] = 10.0 ** r.uniform(-20, -14, (C, F))
         elif name == "em_step":
             op["upd"] = [bool(b) for b in gen.choice(draw, [(1, 1, 1), (0, 1, 0), (1, 0, 0), (0, 0, 1), (1, 1, 0), (0, 1, 1)])]
+        elif name == "lend_to_other_machine":
+            op["factor"] = gen.choice(draw, [0.3, 2.0, 50.0])
+            op["train"] = gen.boolean(draw)
         ops.append(op)
     return {"p": p, "probe": probe, "train": train, "ops": ops, "map": gen.choice(draw, [False, False, True]),
             "C2": gen.integer(draw, 1, 5)}
@@ -155,6 +158,23 @@ def c_history(ctx, case):
             g.update_means, g.update_variances, g.update_weights = op["upd"]
             g.max_fitting_steps = 1
             g.fit(train)
+        elif name == "lend_to_other_machine":
+            # ANOTHER machine, with floors above some or all of this machine's variances, is given the arrays this
+            # machine shows (model.variances = ubm.variances, as the repository's own tests do) and may be trained: the
+            # lender must not change
+            cur = np.asarray(g.variances, float)
+            if not (cur > 0).all():
+                ctx.event("lend skipped (zero variance)")
+                continue
+            b = GMMMachine(len(np.asarray(g.weights)), max_fitting_steps=1, convergence_threshold=None, update_variances=True,
+                           update_weights=True)
+            b.variance_thresholds = float(op["factor"]) * float(np.median(cur))
+            b.means = g.means
+            b.variances = g.variances
+            b.weights = g.weights
+            if op.get("train"):
+                b.fit(train)
+            b.log_likelihood(probe)
         elif name == "deepcopy":
             g = copy.deepcopy(g)
         elif name == "pickle":
